@@ -111,12 +111,13 @@ class Handlers(UserDict):
         self._resolve.cache_clear()  # type: ignore[attr-defined]
 
     def __ior__(self, other: Any) -> Handlers:  # type: ignore[override, misc]
-        result = super().__ior__(other)
-
         # NOTE: UserDict.__ior__() updates the underlying dict directly, so the
-        #   cache has to be invalidated here as well.
-        self._resolve.cache_clear()  # type: ignore[attr-defined]
-        return result
+        #   cache has to be invalidated here as well; also when the update
+        #   fails part-way, since some items may already have been replaced.
+        try:
+            return super().__ior__(other)
+        finally:
+            self._resolve.cache_clear()  # type: ignore[attr-defined]
 
     def __copy__(self) -> Handlers:
         # NOTE: The default UserDict.__copy__() would share the resolver (and
